@@ -80,6 +80,10 @@ func (h *Hist) genWritePath(root *Node) []seg {
 				if h.d.Draw("path-pad-far", 4) == 0 {
 					s.idx = n + 4 + h.d.Draw("path-pad-far-n", 40) // padding well beyond any small threshold
 					h.counters["probe:tf-pad-far"]++
+					if h.d.Draw("path-pad-huge", 40) == 0 {
+						s.idx = n + []int{1000, 70000}[h.d.Draw("path-pad-huge-n", 2)]
+						h.counters["probe:tf-pad-huge"]++
+					}
 				}
 			default:
 				if n > 0 {
@@ -177,7 +181,7 @@ func opSetTF(h *Hist) {
 		}
 	}
 	for _, p := range onPath {
-		if len(p.Elems) > 400 {
+		if len(p.Elems) > 2000 {
 			return
 		}
 	}
@@ -661,6 +665,10 @@ func opImport(h *Hist) {
 		return out
 	}
 	width := h.tail("import-width", 5, 60)
+	if h.d.Draw("import-huge", 60) == 0 {
+		width = []int{511, 513, 1003, 1100}[h.d.Draw("import-huge-n", 4)]
+		h.counters["probe:import-huge"]++
+	}
 	if reuse != nil {
 		src = reuse.Live
 	} else {
